@@ -129,7 +129,23 @@ def run_differential(res: Result, prop: str, rng: random.Random, nprograms: int,
                     res.evaluations += 1
                     if r[0] == 'timeout':
                         res.count('transformed_timeout')
-                        continue
+                        # wall clock says nothing on a loaded machine: compare logical run lengths instead
+                        octx = opts['orig_ctx'] if 'orig_ctx' in opts else ctx
+                        s0 = genrun.count_steps(case.f, args, ctx=octx)
+                        if s0[0] != 'ok':
+                            res.count('steps_original_unmeasured')
+                            continue
+                        s1 = genrun.count_steps(g2, args, ctx=ctx, cap=100 * s0[1] + 200_000)
+                        if s1[0] != 'limit':
+                            res.count('steps_transformed_within_budget' if s1[0] != 'timeout' else 'steps_transformed_unmeasured')
+                            continue
+                        res.violate({'property': prop, 'transform': label, 'args': repr(args), 'ctx': repr(ctx), 'original_result': genrun.show(want),
+                                     'transformed_result': f'still running after {s1[1]} interpreter steps; the original returns after {s0[1]}',
+                                     'problem': 'transformed program does not return where the original does (more than 100x its steps)',
+                                     'source': p.source, 'transformed': new_text,
+                                     'mechanism': {'kind': 'does_not_return', 'transform': label.split('[')[0],
+                                                   'derived_iter_body_writes': 'derived_iter_body_writes' in p.features}})
+                        break
                     if r[0] == 'ok' and r[1] == want:
                         if new_text != orig_text:
                             res.nontrivial += 1
